@@ -305,6 +305,13 @@ def run(ctx):
     from engine.fixture import generic_fixture as _gfps
     _gfps(ctx, [('PTR-SCALE', ptr_scale, 'bad_ptrscale')])
 
+    ctx.rule('IO-COUNT', 'as in C14 / C15 (same engine): in every loop that works off a remaining count R, each psf_fread / psf_fwrite of the body transfers exactly what is accounted for, and a read '
+             'that is accounted for by the request rather than by its result ends the loop when it comes back short - a skip loop that ignores a dead stream runs R / chunk times with R taken '
+             'from the file (the open call does not return)', floor=30)
+    from engine.iocount import io_count as _ioc3
+    n_io3 = _ioc3(ctx, prog)
+    ctx.require(n_io3 >= 30, 'only %d counted transfers found' % n_io3)
+
     ctx.rule('READF-ZERO', 'psf_binheader_readf clears the caller\'s target (`*ptr = 0` / memset (ptr, 0, n)) in every format arm before header_read fills it: after a short or failed read the '
              'parser sees zeros, never the previous chunk\'s bytes or uninitialised memory (LOOP-IO relies on exactly this to conclude that parser loops notice a dead stream)', floor=9)
     from engine.arms import switch_arm_stmts as _sas
